@@ -1,4 +1,5 @@
-import NmlVerif.Model.Builder
+import NmlVerif.Model.BuilderObj
+import NmlVerif.Gen.Bindings
 import NmlVerif.DrvCommon
 open Lean NmlVerif.Builder Drv
 
@@ -16,15 +17,23 @@ def parseKind (s : String) : PKind :=
 
 def parseProp (j : Json) : BioProp := ⟨parseKind (getStr j "kind"), getStr j "value", getStr j "group"⟩
 
-def parseOp (j : Json) : Op :=
+def parsePt (s : String) : Pt :=
+  if s == "absent" then .absent else if s == "short" then .short else if s == "badDiam" then .badDiam else .ok
+
+/-- `idFx`: the tree has the proposed repair `fixes/C15-segment-id-as-stored.patch` (the id is normalised with
+    `int(seg_id)` before the check, so a lexical variant is an ordinary call and the name uses the stored id) -/
+def parseOp (idFx : Bool) (j : Json) : Op :=
   let op := getStr j "op"
   if op == "addSegment" then
-    .addSegment { hasProx := getBool j "prox", segId := optNat j "seg_id", name := optStr j "name",
-                  parent := optNat j "parent", frac4 := getInt j "frac4", groupId := optStr j "group_id",
-                  useConv := getBool j "use_convention", segType := optStr j "seg_type",
-                  reorder := getBool j "reorder", optimise := getBool j "optimise" }
+    let a : AddSeg :=
+      { prox := parsePt (getStr j "prox"), dist := parsePt (getStr j "dist"), segId := getInt? j "seg_id",
+        idText := if idFx then none else optStr j "id_text", name := optStr j "name",
+        parent := getInt? j "parent", frac4 := getInt j "frac4", groupId := optStr j "group_id",
+        useConv := getBool j "use_convention", segType := optStr j "seg_type",
+        reorder := getBool j "reorder", optimise := getBool j "optimise" }
+    if getBool j "lex" && !idFx then .addSegmentLex a else .addSegment a
   else if op == "addUnbranched" then
-    .addUnbranched { npoints := getNat j "npoints", parent := optNat j "parent", frac4 := getInt j "frac4",
+    .addUnbranched { npoints := getNat j "npoints", parent := getInt? j "parent", frac4 := getInt j "frac4",
                      groupId := optStr j "group_id", useConv := getBool j "use_convention",
                      segType := optStr j "seg_type", reorder := getBool j "reorder", optimise := getBool j "optimise" }
   else if op == "addSegmentGroup" then .addSegmentGroup (optStr j "group_id")
@@ -35,6 +44,9 @@ def parseOp (j : Json) : Op :=
   else if op == "reorder" then .reorder
   else if op == "optimise" then .optimise
   else if op == "addMembrane" then .addMembrane (parseProp j)
+  else if op == "addChannelDensity" then
+    .addChannelDensity ⟨getStr j "id", getStr j "ion_channel", getStr j "cond_density", getStr j "erev", getStr j "group",
+                        getStr j "ion"⟩ (getStr j "def_file")
   else .addIntra (parseProp j)
 
 def errS : Err → String
@@ -42,6 +54,7 @@ def errS : Err → String
   | .exception => "Exception"
   | .indexError => "IndexError"
   | .recursionError => "RecursionError"
+  | .unboundLocalError => "UnboundLocalError"
 
 def kindS : PKind → String
   | .spikeThresh => "SpikeThresh"
@@ -57,37 +70,85 @@ def natJ (n : Nat) : Json := Json.num (JsonNumber.fromNat n)
 def intJ (n : Int) : Json := Json.num (JsonNumber.fromInt n)
 
 def segJ (x : Seg) : Json :=
-  Json.arr #[natJ x.id, optJ natJ x.parent, if x.parent.isSome then intJ x.frac4 else Json.null, Json.bool x.hasProx, Json.str x.name]
+  Json.arr #[intJ x.id, optJ intJ x.parent, if x.parent.isSome then intJ x.frac4 else Json.null, Json.bool x.hasProx, Json.str x.name]
 
 def groupJ (s : State) (G : Group) : Json :=
   let r := match resolve s G.id with
-    | .ok l => Json.arr ((natSort l).map natJ).toArray
+    | .ok l => Json.arr ((natSort l).map intJ).toArray
     | .error e => Json.str ("err:" ++ errS e)
-  Json.arr #[Json.str G.id, optJ Json.str G.nlx, r]
+  Json.arr #[if G.idNone then Json.null else Json.str G.id, optJ Json.str G.nlx, r]
 
 def propJ (p : BioProp) : Json := Json.arr #[Json.str (kindS p.kind), Json.str p.value, Json.str p.group]
 
+def chanJ (c : ChanDens) : Json :=
+  Json.arr #[Json.str c.id, Json.str c.ionChannel, Json.str c.condDensity, Json.str c.erev, Json.str c.group, Json.str c.ion]
+
 def dumpJ (s : State) : Json :=
   Json.mkObj [("segs", Json.arr (s.segs.map segJ).toArray), ("groups", Json.arr (s.groups.map (groupJ s)).toArray),
-              ("memb", Json.arr (s.memb.map propJ).toArray), ("intra", Json.arr (s.intra.map propJ).toArray)]
+              ("memb", Json.arr (s.memb.map propJ).toArray), ("intra", Json.arr (s.intra.map propJ).toArray),
+              ("chans", Json.arr (s.chans.map chanJ).toArray), ("docIncs", Json.arr (s.docIncs.map Json.str).toArray)]
+
+/-- the harness draws every point with a positive diameter -/
+def geom0 : Geom := fun _ _ => ("0.0", "0.0", "0.0", "1.0")
+
+/-- the generated `validate_NonNegativeInteger` has no check at all (a facet-less restriction of a builtin type):
+    what the REAL `validate` does; the schema itself is `stC` -/
+def stValidate (v : Nat) (x : String) : Bool := if v = NmlVerif.Gen.Names.nm_NonNegativeInteger then true else stC v x
+
+def sameSet (a b : List Int) : Bool := a.all (fun x => b.contains x) && b.all (fun x => a.contains x)
+
+/-- which of the group clauses of the property FAIL on the model's final cell (the model is the code as it is: a
+    failure it predicts on this very history is the known behaviour, a failure it does not predict is a regression) -/
+def clauseFails (s : State) : List String :=
+  let allBad :=
+    match look s.groups "all" with
+    | none => !s.segs.isEmpty
+    | some _ => (match resolve s "all" with | .ok l => !(sameSet l s.ids) | .error _ => true)
+  let typeBad := [SegType.soma, SegType.axon, SegType.dendrite].any fun t =>
+    match look s.groups t.group with
+    | none => false
+    | some _ =>
+      let want := (s.segs.filter (fun x => x.stype == some t)).map (·.id)
+      (match resolve s t.group with | .ok l => !(sameSet l want) | .error _ => true)
+  let rec orderBad (seen : List String) : List Group → Bool
+    | [] => false
+    | G :: gs => G.includes.any (fun u => !(seen.contains u)) || orderBad (seen ++ [G.id]) gs
+  (if allBad then ["C15:all-mismatch:"] else []) ++ (if typeBad then ["C15:default-group-mismatch:"] else [])
+    ++ (if orderBad [] s.groups then ["C15:include-before-definition:"] else [])
+
+def verdictJ (s : State) : List (String × Json) :=
+  let o := cellObj "c15" geom0 s
+  [("shapeOK", Json.bool (shapeOK s)), ("idsNonNeg", Json.bool (idsNonNeg s)),
+   ("validate", Json.bool (NmlVerif.Schema.validateAll NmlVerif.Gen.Bindings.table stValidate 4 o)),
+   ("xsd", Json.bool (NmlVerif.Schema.validateAll NmlVerif.Gen.Bindings.table stC 4 o))]
 
 def handle (j : Json) : Json :=
   let cfg : Cfg := ⟨getBool j "optFixed"⟩
-  let pick := if getBool j "old" then pickIdOld else pickId
-  let ops := (getArr j "ops").toList.map parseOp
+  let idFx := getBool j "idFixed"
+  let pick := if getBool j "old" then pickIdOld else pickCfg idFx (getBool j "namesFixed")
+  let caught := getBool j "caught"      -- the caller catches every exception and goes on
+  let ops := (getArr j "ops").toList.map (parseOp idFx)
   let rec go (s : State) (ops : List Op) (acc : Array Json) : Array Json × Option State :=
     match ops with
     | [] => (acc, some s)
     | op :: rest =>
       match stepWith pick (optimiseAll cfg) s op with
       | .ok s' => go s' rest (acc.push (Json.mkObj [("ok", dumpJ s')]))
-      | .error e => (acc.push (Json.mkObj [("err", Json.str (errS e))]), none)
+      | .error e =>
+        if caught then
+          let sL := leaveWith pick (optimiseAll cfg) (optimiseAllLeave cfg) s op
+          go sL rest (acc.push (Json.mkObj [("err", Json.str (errS e)), ("left", dumpJ sL)]))
+        else (acc.push (Json.mkObj [("err", Json.str (errS e))]), none)
   let (steps, fin) := go init ops #[]
   match fin with
   | none => Json.mkObj [("steps", Json.arr steps)]
   | some s =>
     match finish cfg s with
-    | .ok s' => Json.mkObj [("steps", Json.arr steps), ("finish", Json.mkObj [("ok", dumpJ s')]), ("shapeOK", Json.bool (shapeOK s'))]
-    | .error e => Json.mkObj [("steps", Json.arr steps), ("finish", Json.mkObj [("err", Json.str (errS e))]), ("shapeOK", Json.bool (shapeOK s))]
+    | .ok s' => Json.mkObj ([("steps", Json.arr steps), ("finish", Json.mkObj [("ok", dumpJ s')]),
+                             ("clauseFails", Json.arr ((clauseFails s').map Json.str).toArray)] ++ verdictJ s')
+    | .error e =>
+      let sL := optimiseAllLeave cfg (reorder s)
+      Json.mkObj ([("steps", Json.arr steps), ("finish", Json.mkObj [("err", Json.str (errS e)), ("left", dumpJ sL)]),
+                   ("clauseFails", Json.arr #[Json.str "C15:finish-raises:"])] ++ verdictJ sL)
 
 def main : IO Unit := loop handle
